@@ -92,6 +92,11 @@ func (p *wat2cWorker) ifUseMathX(ins token.Token) bool {
 		return true
 	case token.INS_I64_ROTR:
 		return true
+
+	case token.INS_F32_MIN, token.INS_F32_MAX:
+		return true
+	case token.INS_F64_MIN, token.INS_F64_MAX:
+		return true
 	}
 	return false
 }
